@@ -64,7 +64,7 @@ def offdiag_matrix(p, code, dtype):
 
 def adversarial(rng, fam_idx):
     p = int(rng.integers(1, 11))
-    kind = fam_idx % 12
+    kind = fam_idx % 14
     dag = gmat.random_dag_masks(rng, p)
     tiny = lambda: float(rng.choice([-1, 1])) * float(rng.choice([1e-9, 1e-12, 1e-100, 1e-300, 5e-324]))
     if kind == 0:      # DAG, cancelling columns
@@ -110,6 +110,24 @@ def adversarial(rng, fam_idx):
         else:
             a = int(rng.integers(p))
             A[a, a] = tiny()
+    elif kind in (12, 13):   # not weakly connected: a directed cycle on some nodes, a separate DAG (or isolated nodes) on the rest
+        A = np.zeros((p, p))
+        nodes = [int(v) for v in rng.permutation(p)]
+        c = int(rng.integers(3, max(4, p - 1))) if p >= 4 else p
+        cyc = nodes[:c]
+        rest = nodes[c:]
+        if len(cyc) >= 3 or kind == 13:
+            for t in range(len(cyc)):
+                A[cyc[t], cyc[(t + 1) % len(cyc)]] = rng.choice([-1.0, 1.0]) * rng.uniform(0.5, 2)
+            if kind == 13 and len(cyc) >= 3 and rng.random() < 0.5:
+                # the cycle feeds some nodes downstream (still no source node in that component)
+                for v in rest[: len(rest) // 2]:
+                    A[cyc[0], v] = 1.0
+                rest = rest[len(rest) // 2:]
+        for a in range(len(rest)):       # a DAG (often a path or nothing) on the remaining nodes, no edge to the cycle
+            for b in range(a + 1, len(rest)):
+                if rng.random() < 0.35:
+                    A[rest[a], rest[b]] = rng.uniform(0.5, 2)
     elif kind in (10, 11):   # extreme magnitudes: sums of |weights| overflow / wrap, the non-zero pattern is all that counts
         if kind == 10:
             A = np.zeros((p, p), dtype=np.int64)
